@@ -27,41 +27,14 @@ theorem strToCommaDecimal_some (env : CsvEnv) (s : String) (v : Option Dec) (h :
   | none => simp [hp] at h
   | some d => simp [hp] at h; exact ⟨d, h.symm, rfl⟩
 
-/-- **C16_sign (credit/debit columns).**  With a credit and a debit column the row moves the account by
-`+credit` when the credit cell is non-empty and by `−debit` otherwise — whatever the account type. -/
+/-- **C16_sign (credit/debit columns).**  With a credit and a debit column the row moves the account by `+credit` when the
+credit cell holds something other than zero (or the debit cell is empty) and by `−debit` otherwise — whatever the account
+type (`CreditDebitRule`; after fix F41 a zero printed in the credit cell of a debit row no longer hides the debit). -/
 theorem C16_sign_credit_debit (env : CsvEnv) (fm : FieldMap) (at_ : AccountType) (rec : List String)
     (cf df : CsvField) (a : Dec) (hv : fm.value = .creditDebit cf df) (h : fm.amount env at_ rec = .ok a) :
     ∃ credit debit, fm.resolve .credit cf rec = .ok (some credit) ∧ fm.resolve .debit df rec = .ok (some debit) ∧
-      ((credit.isEmpty = false ∧ env.parseAmt credit = some a) ∨
-       (credit.isEmpty = true ∧ debit.isEmpty = false ∧ ∃ d, env.parseAmt debit = some d ∧ a = d.negate)) := by
-  unfold FieldMap.amount at h
-  simp only [hv] at h
-  split at h <;> try (simp at h; done)
-  rename_i credit hc
-  split at h <;> try (simp at h; done)
-  rename_i debit hd
-  refine ⟨credit, debit, hc, hd, ?_⟩
-  by_cases hce : credit.isEmpty = true
-  · simp only [hce, Bool.not_true, Bool.false_eq_true, if_false] at h
-    by_cases hde : debit.isEmpty = true
-    · simp [hde] at h
-    · have hde' : debit.isEmpty = false := by simpa using hde
-      simp only [hde', Bool.not_false, if_true] at h
-      split at h <;> try (simp at h; done)
-      rename_i v hs
-      obtain ⟨d, hv', hp⟩ := strToCommaDecimal_some env debit v hs hde'
-      subst hv'
-      simp at h
-      exact Or.inr ⟨hce, hde', d, hp, h.symm⟩
-  · have hce' : credit.isEmpty = false := by simpa using hce
-    simp only [hce', Bool.not_false, if_true] at h
-    split at h <;> try (simp at h; done)
-    rename_i v hs
-    obtain ⟨d, hv', hp⟩ := strToCommaDecimal_some env credit v hs hce'
-    subst hv'
-    simp at h
-    subst h
-    exact Or.inl ⟨hce', hp⟩
+      CreditDebitRule env.parseAmt credit debit a :=
+  CellsUse.sign_credit_debit env fm at_ rec cf df a hv h
 
 /-- **C16_sign (amount column).**  With an `amount` column the row moves an asset account by the amount and a
 liability account by its negation (an empty cell counts as zero). -/
@@ -1098,27 +1071,28 @@ theorem C16_amount_written (parseDate : String → Option Date) (cap : Captures)
 
 open Cells in
 /-- **C16_credit_debit_written**: with a credit and a debit column and okane's own number decoder, the row moves the
-account by `+` the number written in the credit cell when that cell is non-empty, else by `−` the number written in
-the debit cell. -/
+account by `+` the number written in the credit cell when that number is not zero (or the debit cell is empty), else by `−`
+the number written in the debit cell. -/
 theorem C16_credit_debit_written (parseDate : String → Option Date) (cap : Captures) (fm : FieldMap) (at_ : AccountType)
     (rec : List String) (cf df : CsvField) (a : Dec) (hv : fm.value = .creditDebit cf df)
     (h : fm.amount (cellEnv parseDate cap) at_ rec = .ok a) :
     ∃ credit debit, fm.resolve .credit cf rec = .ok (some credit) ∧ fm.resolve .debit df rec = .ok (some debit) ∧
-      ((credit.isEmpty = false ∧ ∃ neg tok com, CellForm credit.toList neg tok com ∧
+      ((credit.isEmpty = false ∧ (a.isZero = false ∨ debit.isEmpty = true) ∧ ∃ neg tok com, CellForm credit.toList neg tok com ∧
           a.toRat = (-1 : Rat) ^ minusCount neg tok * Spec.litValue (Spec.stripMinus tok) ∧ a.scale = Spec.litScale tok) ∨
-       (credit.isEmpty = true ∧ debit.isEmpty = false ∧ ∃ neg tok com, CellForm debit.toList neg tok com ∧
+       (debit.isEmpty = false ∧ (credit.isEmpty = true ∨ (credit.isEmpty = false ∧ ∃ c0, cellDecimal credit = some c0 ∧ c0.isZero = true)) ∧
+          ∃ neg tok com, CellForm debit.toList neg tok com ∧
           a.toRat = - ((-1 : Rat) ^ minusCount neg tok * Spec.litValue (Spec.stripMinus tok)) ∧ a.scale = Spec.litScale tok)) := by
   obtain ⟨credit, debit, h1, h2, h3⟩ := C16_sign_credit_debit _ fm at_ rec cf df a hv h
   refine ⟨credit, debit, h1, h2, ?_⟩
-  rcases h3 with ⟨he, hp⟩ | ⟨he, hd, d, hp, rfl⟩
+  rcases h3 with ⟨he, hp, hnz⟩ | ⟨hd, hc0, d, hp, rfl⟩
   · left
     have hp' : cellDecimal credit = some a := hp
     obtain ⟨neg, tok, com, hf, _, _, hval, hsc⟩ := C16_cell_minus_signs credit a hp'
-    exact ⟨he, neg, tok, com, hf, hval, hsc⟩
+    exact ⟨he, hnz, neg, tok, com, hf, hval, hsc⟩
   · right
     have hp' : cellDecimal debit = some d := hp
     obtain ⟨neg, tok, com, hf, _, _, hval, hsc⟩ := C16_cell_minus_signs debit d hp'
-    exact ⟨he, hd, neg, tok, com, hf, by rw [Dec.toRat_negate, hval], hsc⟩
+    exact ⟨hd, hc0, neg, tok, com, hf, by rw [Dec.toRat_negate, hval], hsc⟩
 
 /-- non-vacuity of `C16_amount_written` / `C16_credit_debit_written`: a liability statement listing `--100.00`, read
 through the real decoder model, moves the account by `-100.00` (two minus signs cancel, the account type negates);
@@ -1130,30 +1104,16 @@ example :
       (Cells.cellEnv (fun _ => none) (fun _ _ => none)) .asset ["d", "p", "", "$-1.46"] = .ok ⟨false, 146, 2⟩ := by
   decide +kernel
 
-/-- The statement one would like for the two-column layout (kept visible): the row moves the account by the number in the credit
-cell minus the number in the debit cell, an empty cell counting as nothing. -/
-def C16_credit_minus_debit_stmt : Prop :=
-  ∀ (fm : FieldMap) (rec : List String) (cf df : CsvField) (credit debit : String) (c d a : Dec),
-    fm.value = .creditDebit cf df →
-    fm.resolve .credit cf rec = .ok (some credit) → fm.resolve .debit df rec = .ok (some debit) →
-    Cells.cellDecimal credit = some c → Cells.cellDecimal debit = some d →
-    fm.amount (Cells.cellEnv (fun _ => none) (fun _ _ => none)) .asset rec = .ok a →
-    a.toRat = c.toRat - d.toRat
-
-/-- **known finding F41, as a theorem about the model**: the credit cell wins whenever it is not empty.  A row `0.00 | 400.00`
-(credit cell zero, debit 400.00) is booked as `0.00`: the debit is lost.  (`C16_sign_credit_debit` says the same in general:
-its first alternative asks only that the credit cell be non-empty.) -/
-theorem C16_credit_zero_loses_debit :
+/-- **F41 (fixed)**: a statement that fills both cells of every row.  A zero printed in the credit cell of a debit row no
+longer hides the debit (`0.00 | 400.00` moves the account by −400.00), a zero in the debit cell of a credit row changes
+nothing, and a row with two zeros is a zero row. -/
+theorem C16_both_cells_filled :
     (⟨.column 0, .column 1, .creditDebit (.column 2) (.column 3), [], 3⟩ : FieldMap).amount
-      (Cells.cellEnv (fun _ => none) (fun _ _ => none)) .asset ["d", "p", "0.00", "400.00"] = .ok ⟨false, 0, 2⟩ := by
-  decide +kernel
-
-theorem not_C16_credit_minus_debit : ¬ C16_credit_minus_debit_stmt := by
-  intro h
-  have := h ⟨.column 0, .column 1, .creditDebit (.column 2) (.column 3), [], 3⟩ ["d", "p", "0.00", "400.00"]
-    (.column 2) (.column 3) "0.00" "400.00" ⟨false, 0, 2⟩ ⟨false, 40000, 2⟩ ⟨false, 0, 2⟩ rfl (by decide +kernel) (by decide +kernel)
-    (by decide +kernel) (by decide +kernel) C16_credit_zero_loses_debit
-  revert this
+      (Cells.cellEnv (fun _ => none) (fun _ _ => none)) .asset ["d", "p", "0.00", "400.00"] = .ok ⟨true, 40000, 2⟩ ∧
+    (⟨.column 0, .column 1, .creditDebit (.column 2) (.column 3), [], 3⟩ : FieldMap).amount
+      (Cells.cellEnv (fun _ => none) (fun _ _ => none)) .asset ["d", "p", "45.50", "0.00"] = .ok ⟨false, 4550, 2⟩ ∧
+    (⟨.column 0, .column 1, .creditDebit (.column 2) (.column 3), [], 3⟩ : FieldMap).amount
+      (Cells.cellEnv (fun _ => none) (fun _ _ => none)) .asset ["d", "p", "0.00", "0.00"] = .ok ⟨true, 0, 2⟩ := by
   decide +kernel
 
 open Cells in
@@ -1375,7 +1335,8 @@ theorem C16_order_file (env : CsvEnv) (cfg : CsvCfg) (t : TextCfg) (lines : List
 
 /-- **C16_sign_file.**  `C16_sign` for the file: every transaction of the import is the transaction of one row of the file,
 and the amount it books on the account is what the row's cells say — the `amount` cell (negated for a liability account; an
-empty cell is zero), or `+credit` when the credit cell is not empty and `−debit` otherwise. -/
+empty cell is zero), or `+credit` when the credit cell holds something other than zero (or the debit cell is empty) and `−debit`
+otherwise (`CreditDebitRule`). -/
 theorem C16_sign_file (env : CsvEnv) (cfg : CsvCfg) (t : TextCfg) (lines : List Bytes) (header : List String)
     (rows : List (List String)) (w : WrittenFile t lines header rows) (txns : List Txn)
     (h : csvImportText env cfg t (fileBytes t lines header rows) = .ok txns) :
@@ -1387,8 +1348,7 @@ theorem C16_sign_file (env : CsvEnv) (cfg : CsvCfg) (t : TextCfg) (lines : List 
           (cfg.accountType = .liability → v.amount = (x.getD {}).negate)) ∧
         (∀ cf df, fm.value = .creditDebit cf df → ∃ credit debit,
           fm.resolve .credit cf rec = .ok (some credit) ∧ fm.resolve .debit df rec = .ok (some debit) ∧
-          ((credit.isEmpty = false ∧ env.parseAmt credit = some v.amount) ∨
-           (credit.isEmpty = true ∧ debit.isEmpty = false ∧ ∃ dd, env.parseAmt debit = some dd ∧ v.amount = dd.negate))) := by
+          CreditDebitRule env.parseAmt credit debit v.amount) := by
   rw [(C16_import_file env cfg t lines header rows w).1] at h
   obtain ⟨fm, hfm, hmem⟩ := csvImport_mem env cfg header rows txns h
   refine ⟨fm, hfm, ?_⟩
